@@ -22,6 +22,7 @@ func floors(tier string) map[string]int64 {
 		"cache_other_signer_blocks_accepted": 20,
 		"cache_mutant_blocks_rejected":       100,
 		"cache_commits_observed":             20,
+		"cache_inflight_forgeries_checked":   20,
 		// confidential lane
 		"ownership_scans":                 1400,
 		"ownership_owner_ok":              280,
